@@ -312,3 +312,270 @@ Theorem C14_vsib2_path_never_stuck : forall x64 inst_id etype kid v,
   x86_vgather2 x64 inst_id etype kid v <> MStuck.
 Proof. exact vsib2_path_never_stuck. Qed.
 Print Assumptions C14_vsib2_path_never_stuck.
+
+(* a64 load / store pair (kEncodingBaseLdpStp): table reads in range for every instruction id; what is accepted is encodable *)
+Theorem C14_a64_ldp_never_stuck : forall inst_id m, 0 <= inst_id -> a64_ldp inst_id m <> MStuck.
+Proof. exact a64_ldp_never_stuck. Qed.
+Print Assumptions C14_a64_ldp_never_stuck.
+
+Theorem C14_a64_ldp_accepted_encodable : forall inst_id m n d,
+  a64_ldp inst_id m = MOk n d ->
+  n = 4 /\ d = 0 /\ p_rtype0 m = p_rtype1 m /\ (p_rid0 m < 31 \/ p_rid0 m = a64c_zr) /\ (p_rid1 m < 31 \/ p_rid1 m = a64c_zr) /\
+  p_btype m = a64c_reg_type_gp64 /\ p_itype m = 0 /\ p_bid m <= 31.
+Proof. exact a64_ldp_accepted_encodable. Qed.
+Print Assumptions C14_a64_ldp_accepted_encodable.
+
+(* non-vacuity of the computed-verdict families: each verdict class (accepted with its byte count, each kind of refusal) is
+   inhabited by a concrete instruction; ids come from the dumped enums *)
+Theorem C14_a64_ldst_verdicts_inhabited :
+  a64_ldst a64c_id_ldr (mkA64Mem 6 1 6 2 0 0 0 0 0 8) = MOk 4 0 /\
+  a64_ldst a64c_id_ldr (mkA64Mem 6 1 6 2 0 0 0 0 0 (-8)) = MOk 4 0 /\
+  a64_ldst a64c_id_ldr (mkA64Mem 6 1 6 2 0 0 0 0 0 4097) = MErr kInvalidDisplacement /\
+  a64_ldst a64c_id_ldr (mkA64Mem 6 40 6 2 0 0 0 0 0 8) = MErr kInvalidPhysId /\
+  a64_ldst a64c_id_ldr (mkA64Mem 6 1 6 2 6 3 0 2 0 0) = MErr kInvalidAddressScale /\
+  a64_ldst a64c_id_ldr (mkA64Mem 6 1 6 2 6 3 0 3 0 0) = MOk 4 0.
+Proof. exact a64_ldst_verdicts. Qed.
+Print Assumptions C14_a64_ldst_verdicts_inhabited.
+
+Theorem C14_a64_ldp_verdicts_inhabited :
+  a64_ldp a64c_id_ldp (mkA64Pair 6 1 6 2 6 3 0 0 16) = MOk 4 0 /\
+  a64_ldp a64c_id_ldp (mkA64Pair 6 1 6 2 6 3 0 0 4) = MErr kInvalidDisplacement /\
+  a64_ldp a64c_id_ldp (mkA64Pair 6 1 5 2 6 3 0 0 16) = MErr kInvalidInstruction /\
+  a64_ldp a64c_id_ldp (mkA64Pair 6 1 6 2 6 40 0 0 16) = MErr kInvalidAddress.
+Proof. exact a64_ldp_verdicts. Qed.
+Print Assumptions C14_a64_ldp_verdicts_inhabited.
+
+Theorem C14_shift_verdicts_inhabited :
+  x86_shift_imm true false x86c_id_shl (mkShift 5 0 4 1) = MOk 2 0 /\
+  x86_shift_imm true true x86c_id_shl (mkShift 5 0 4 1) = MOk 3 0 /\
+  x86_shift_imm true false x86c_id_shl (mkShift 6 9 8 5) = MOk 4 0 /\
+  x86_shift_imm false false x86c_id_shl (mkShift 6 1 8 5) = MErr 58 /\
+  x86_shift_imm true false x86c_id_shl (mkShift 11 31 16 5) = MErr kInvalidPhysId.
+Proof. exact shift_verdicts. Qed.
+Print Assumptions C14_shift_verdicts_inhabited.
+
+Theorem C14_pushpop_verdicts_inhabited :
+  x86_pushpop_sreg true false x86c_id_push 5 = MOk 2 0 /\
+  x86_pushpop_sreg true true x86c_id_pop 2 = MErr kInvalidInstruction /\
+  x86_pushpop_sreg true false x86c_id_push 7 = MErr kInvalidPhysId.
+Proof. exact pushpop_verdicts. Qed.
+Print Assumptions C14_pushpop_verdicts_inhabited.
+
+Theorem C14_vsib2_verdicts_inhabited :
+  x86_vgather2 true x86c_vgatherdps_id 16 1 (mkVsib 13 17 0 64 (mkMem 0 6 3 13 18 2 0 0 0 256)) = MOk 8 0 /\
+  x86_vgather2 true x86c_vgatherdps_id 16 1 (mkVsib 13 17 0 64 (mkMem 0 6 3 13 18 2 0 0 0 258)) = MOk 11 0 /\
+  x86_vgather2 true x86c_vgatherdps_id 16 1 (mkVsib 11 1 0 16 (mkMem 0 6 3 11 2 0 0 0 0 0)) = MOk 7 0 /\
+  x86_vgather2 true x86c_vgatherdps_id 16 9 (mkVsib 11 1 0 16 (mkMem 0 6 3 11 2 0 0 0 0 0)) = MErr 39 /\
+  x86_vgather true x86c_vgatherdps_id (mkVsib 11 16 2 16 (mkMem 0 6 3 11 2 0 0 0 0 0)) = MErr kInvalidPhysId /\
+  x86_vgather true x86c_vgatherdps_id (mkVsib 11 1 2 16 (mkMem 0 6 3 11 3 0 0 0 0 0)) = MOk 6 0.
+Proof. exact vsib2_verdicts. Qed.
+Print Assumptions C14_vsib2_verdicts_inhabited.
+
+(* end to end: a refusal computed by any verdict model, handed to the emit transaction, is a failed call that reports exactly
+   that error, leaves sections / labels / fixups / relocations / address table / nodes / current section untouched and clears
+   the one-shot state - every flavour, architecture, handler kind, state *)
+Theorem C14_refused_instruction_end_to_end : forall fl a h s e s' o,
+  e <> 0 -> step fl a h s (CInst (EncErr e)) = (s', o) ->
+  o = report h e /\ failed o = true /\ persistent s' = persistent s /\ st_one s' = one_clear.
+Proof. exact refused_instruction_end_to_end. Qed.
+Print Assumptions C14_refused_instruction_end_to_end.
+
+(* ... and the refusals of the computed-verdict families always carry a non-zero error code (its hypothesis) *)
+Theorem C14_a64_ldst_cmd_wf : forall inst_id m c, a64_ldst_cmd inst_id m = Some c -> wf_cmd c.
+Proof. exact a64_ldst_cmd_wf. Qed.
+Print Assumptions C14_a64_ldst_cmd_wf.
+
+Theorem C14_a64_ldp_cmd_wf : forall inst_id m c, a64_ldp_cmd inst_id m = Some c -> wf_cmd c.
+Proof. exact a64_ldp_cmd_wf. Qed.
+Print Assumptions C14_a64_ldp_cmd_wf.
+
+Theorem C14_shift_cmd_wf : forall a s inst_id f c, shift_cmd a s inst_id f = Some c -> wf_cmd c.
+Proof. exact shift_cmd_wf. Qed.
+Print Assumptions C14_shift_cmd_wf.
+
+Theorem C14_pushpop_cmd_wf : forall a is_pop inst_id id c, pushpop_cmd a is_pop inst_id id = Some c -> wf_cmd c.
+Proof. exact pushpop_cmd_wf. Qed.
+Print Assumptions C14_pushpop_cmd_wf.
+
+Theorem C14_vsib2_cmd_wf : forall a s inst_id v c, vsib2_cmd a s inst_id v = Some c -> wf_cmd c.
+Proof. exact vsib2_cmd_wf. Qed.
+Print Assumptions C14_vsib2_cmd_wf.
+
+(* mov r, [mem] / mov [mem], r for every GP width, the moffs special form included (kEncodingX86Mov -> EmitX86OpMovAbs |
+   EmitX86M): no table read out of bounds; refusals carry an error; the moffs form has an address-independent length *)
+Theorem C14_modrm_encode_never_stuck : forall x64 absloc cur npp rexop m,
+  0 <= m_btype m <= x86c_mem_base_type_max -> 0 <= m_itype m <= x86c_mem_index_type_max -> 0 <= m_seg m <= x86c_mem_segment_max ->
+  x86_modrm_mem_encode x64 absloc cur npp rexop m <> MStuck.
+Proof. exact modrm_encode_never_stuck. Qed.
+Print Assumptions C14_modrm_encode_never_stuck.
+
+Theorem C14_mov_never_stuck : forall x64 absloc cur inst_id f,
+  0 <= inst_id ->
+  0 <= m_btype (mv_mem f) <= x86c_mem_base_type_max -> 0 <= m_itype (mv_mem f) <= x86c_mem_index_type_max ->
+  0 <= m_seg (mv_mem f) <= x86c_mem_segment_max ->
+  x86_mov_rm x64 absloc cur inst_id f <> MStuck.
+Proof. exact mov_never_stuck. Qed.
+Print Assumptions C14_mov_never_stuck.
+
+Theorem C14_mov_cmd_wf : forall a hb s inst_id f c, mov_cmd a hb s inst_id f = Some c -> wf_cmd c.
+Proof. exact mov_cmd_wf. Qed.
+Print Assumptions C14_mov_cmd_wf.
+
+Theorem C14_movabs_length : forall x64 absloc cur f n d,
+  m_dst (mv_mem f) = 0 -> m_btype (mv_mem f) = 0 -> m_itype (mv_mem f) = 0 ->
+  mv_rtype f <> kRegTypeSegment -> mv_rtype f <> x86c_reg_type_gp8hi ->
+  x86_use_movabs x64 absloc cur (mv_rsize f) (mv_mem f) = true ->
+  x86_mov_rm_encode x64 absloc cur f = MOk n d ->
+  d = 0 /\ (if x64 then 9 else 5) <= n <= (if x64 then 12 else 8).
+Proof. exact movabs_length. Qed.
+Print Assumptions C14_movabs_length.
+
+Theorem C14_mov_verdicts_inhabited :
+  x86_mov_rm true false 0 x86c_id_mov (mkMov 6 8 false (mkMem 0 0 0 0 0 0 0 0 8 78187493530)) = MOk 10 0 /\
+  x86_mov_rm true false 0 x86c_id_mov (mkMov 5 4 false (mkMem 0 0 0 0 0 0 0 0 4 4096)) = MOk 6 1 /\
+  x86_mov_rm false false 0 x86c_id_mov (mkMov 5 4 false (mkMem 0 0 0 0 0 0 0 0 4 4096)) = MOk 5 0 /\
+  x86_mov_rm false false 0 x86c_id_mov (mkMov 4 2 true (mkMem 0 0 0 0 0 0 5 0 2 4096)) = MOk 7 0 /\
+  x86_mov_rm true false 0 x86c_id_mov (mkMov 3 1 false (mkMem 0 6 9 0 0 0 0 0 1 0)) = MErr 57 /\
+  x86_mov_rm true false 0 x86c_id_mov (mkMov 2 1 false (mkMem 6 6 3 0 0 0 0 0 1 0)) = MOk 3 0 /\
+  x86_mov_rm true false 0 x86c_id_mov (mkMov 6 8 false (mkMem 1 6 3 0 0 0 7 0 8 0)) = MErr kInvalidSegment.
+Proof. exact mov_verdicts. Qed.
+Print Assumptions C14_mov_verdicts_inhabited.
+
+(* the success side at full strength: what an accepted instruction of the computed-verdict families changes, and everything it
+   must NOT change *)
+Theorem C14_accepted_instruction_end_to_end : forall a h s n d s' o,
+  step FAssembler a h s (CInst (EncOk n None false d 0 0)) = (s', o) ->
+  o = ok_out /\ st_sizes s' = updZ (st_sizes s) (st_cur s) (cur_size s + n) /\ st_relocs s' = st_relocs s + d /\
+  st_cur s' = st_cur s /\ st_labels s' = st_labels s /\ st_fixups s' = st_fixups s /\ st_addrs s' = st_addrs s /\
+  st_nodes s' = st_nodes s /\ st_one s' = one_clear.
+Proof. exact accepted_instruction_end_to_end. Qed.
+Print Assumptions C14_accepted_instruction_end_to_end.
+
+(* a64 SIMD / FP load / store (kEncodingSimdLdSt + the ldur/stur fallback) *)
+Theorem C14_a64_simd_ldst_never_stuck : forall inst_id v,
+  0 <= inst_id -> 0 <= a_shiftop (av_mem v) <= a64c_mem_shift_op_max -> a64_simd_ldst inst_id v <> MStuck.
+Proof. exact a64_simd_ldst_never_stuck. Qed.
+Print Assumptions C14_a64_simd_ldst_never_stuck.
+
+Theorem C14_a64_simd_ldst_accepted_encodable : forall inst_id v n d,
+  a64_simd_ldst inst_id v = MOk n d ->
+  n = 4 /\ d = 0 /\ a_rid (av_mem v) <= 31 /\ av_ei v = false /\ av_et v = 0 /\
+  a_btype (av_mem v) = a64c_reg_type_gp64 /\ a_bid (av_mem v) <= 31 /\
+  (a_itype (av_mem v) <> 0 -> a_iid (av_mem v) <= 30 \/ a_iid (av_mem v) = a64c_id_zr).
+Proof. exact a64_simd_ldst_accepted_encodable. Qed.
+Print Assumptions C14_a64_simd_ldst_accepted_encodable.
+
+Theorem C14_a64_simd_ldst_cmd_wf : forall inst_id v c, a64_simd_ldst_cmd inst_id v = Some c -> wf_cmd c.
+Proof. exact a64_simd_ldst_cmd_wf. Qed.
+Print Assumptions C14_a64_simd_ldst_cmd_wf.
+
+Theorem C14_a64_simd_ldst_verdicts_inhabited :
+  a64_simd_ldst a64c_id_ldr_v (mkA64VMem 0 false (mkA64Mem a64c_reg_type_vec128 1 6 2 0 0 0 0 0 32)) = MOk 4 0 /\
+  a64_simd_ldst a64c_id_ldr_v (mkA64VMem 0 false (mkA64Mem a64c_reg_type_vec128 1 6 2 0 0 0 0 0 8)) = MOk 4 0 /\
+  a64_simd_ldst a64c_id_ldr_v (mkA64VMem 0 false (mkA64Mem a64c_reg_type_vec128 1 6 2 0 0 0 0 0 264)) = MErr kInvalidDisplacement /\
+  a64_simd_ldst a64c_id_ldr_v (mkA64VMem 0 false (mkA64Mem a64c_reg_type_vec128 40 6 2 0 0 0 0 0 32)) = MErr kInvalidPhysId /\
+  a64_simd_ldst a64c_id_ldr_v (mkA64VMem 2 false (mkA64Mem a64c_reg_type_vec128 1 6 2 0 0 0 0 0 32)) = MErr kInvalidRegType /\
+  a64_simd_ldst a64c_id_str_v (mkA64VMem 0 false (mkA64Mem a64c_reg_type_vec128 1 6 2 6 3 0 4 0 0)) = MOk 4 0 /\
+  a64_simd_ldst a64c_id_str_v (mkA64VMem 0 false (mkA64Mem a64c_reg_type_vec128 1 6 2 6 3 0 3 0 0)) = MErr kInvalidAddressScale.
+Proof. exact a64_simd_ldst_verdicts. Qed.
+Print Assumptions C14_a64_simd_ldst_verdicts_inhabited.
+
+(* VEX / EVEX register form (vaddps v, v, v {k} through EmitVexEvexR) *)
+Theorem C14_vrrr_never_stuck : forall x64 inst_id etype kid f, 0 <= vr_size f <= x86c_size_max -> x86_vrrr x64 inst_id etype kid f <> MStuck.
+Proof. exact vrrr_never_stuck. Qed.
+Print Assumptions C14_vrrr_never_stuck.
+
+Theorem C14_vrrr_accepted_length : forall x64 inst_id etype kid f n d,
+  x86_vrrr x64 inst_id etype kid f = MOk n d -> d = 0 /\ (n = 4 \/ n = 5 \/ n = 6).
+Proof. exact vrrr_accepted_length. Qed.
+Print Assumptions C14_vrrr_accepted_length.
+
+Theorem C14_vrrr_cmd_wf : forall a s inst_id f c, vrrr_cmd a s inst_id f = Some c -> wf_cmd c.
+Proof. exact vrrr_cmd_wf. Qed.
+Print Assumptions C14_vrrr_cmd_wf.
+
+Theorem C14_vrrr_verdicts_inhabited :
+  x86_vrrr true x86c_vaddps_id 0 0 (mkVrrr 11 1 11 2 11 3 16) = MOk 4 0 /\
+  x86_vrrr true x86c_vaddps_id 0 0 (mkVrrr 11 1 11 2 11 9 16) = MOk 5 0 /\
+  x86_vrrr true x86c_vaddps_id 0 0 (mkVrrr 11 1 11 2 11 17 16) = MOk 6 0 /\
+  x86_vrrr true x86c_vaddps_id 16 3 (mkVrrr 12 1 12 2 12 3 32) = MOk 6 0 /\
+  x86_vrrr true x86c_vaddps_id 0 0 (mkVrrr 13 1 13 2 13 3 64) = MOk 6 0 /\
+  x86_vrrr true x86c_vaddps_id 0 0 (mkVrrr 11 1 11 2 11 32 16) = MErr kInvalidPhysId /\
+  x86_vrrr true x86c_vaddps_id 0 0 (mkVrrr 11 1 12 2 11 3 48) = MErr kInvalidInstruction /\
+  x86_vrrr false x86c_vaddps_id 0 0 (mkVrrr 11 1 11 2 11 9 16) = MErr kInvalidPhysId.
+Proof. exact vrrr_verdicts. Qed.
+Print Assumptions C14_vrrr_verdicts_inhabited.
+
+(* the eight kEncodingX86Arith instructions with (Reg, Mem) / (Mem, Reg), every GP width: same ModRM path, table reads in range *)
+Theorem C14_arith_rm_encode_never_stuck : forall x64 absloc cur inst_id f,
+  0 <= inst_id ->
+  0 <= m_btype (mv_mem f) <= x86c_mem_base_type_max -> 0 <= m_itype (mv_mem f) <= x86c_mem_index_type_max ->
+  0 <= m_seg (mv_mem f) <= x86c_mem_segment_max ->
+  x86_arith_rm_encode x64 absloc cur inst_id f <> MStuck.
+Proof. exact arith_rm_encode_never_stuck. Qed.
+Print Assumptions C14_arith_rm_encode_never_stuck.
+
+(* a64 ldr / str `[base, #off]`, characterised arithmetically for EVERY 32-bit offset (no enumeration): accepted exactly when off
+   is a multiple of the access size inside the scaled uimm12 range or lies in the simm9 range of the ldur/stur fallback; refused
+   with kInvalidDisplacement otherwise.  The second statement shows the hypotheses hold for the rows of ldr (X: scale 3, W: 2)
+   and ldrb (scale 0). *)
+Theorem C14_a64_ldst_imm_offset_spec : forall r m,
+  a64_gp_type_ok (l_allowed r) (a_rtype m) = true -> a64_check_gp_id (a_rid m) a64c_zr = true ->
+  a64_gp_type_ok (l2_allowed r) (a_rtype m) = true -> a64_check_gp_id (a_rid m) (l2_hi r) = true -> l2_shift r = 0 ->
+  a_btype m = a64c_reg_type_gp64 -> a_bid m <= 31 -> a_itype m = 0 -> a_mode m = 0 ->
+  - 2 ^ 31 <= a_off m < 2 ^ 31 -> 0 <= a64_imm_shift r m <= 4 ->
+  let s := a64_imm_shift r m in
+  let fits := (0 <= a_off m < 4096 * 2 ^ s /\ (a_off m) mod 2 ^ s = 0) \/ (-256 <= a_off m <= 255) in
+  (fits -> a64_ldst_encode_row r m = MOk 4 0) /\ (~ fits -> a64_ldst_encode_row r m = MErr kInvalidDisplacement).
+Proof. exact a64_ldst_imm_offset_spec. Qed.
+Print Assumptions C14_a64_ldst_imm_offset_spec.
+
+Theorem C14_a64_ldst_imm_offset_spec_applies :
+  match a64_ldst_row a64c_id_ldr, a64_ldst_row a64c_id_ldrb with
+  | RRow r, RRow rb =>
+      (l2_shift r =? 0) && a64_gp_type_ok (l_allowed r) 6 && a64_gp_type_ok (l2_allowed r) 6 && a64_check_gp_id 1 (l2_hi r) &&
+      (a64_imm_shift r (mkA64Mem 6 1 6 2 0 0 0 0 0 0) =? 3) && (a64_imm_shift r (mkA64Mem 5 1 6 2 0 0 0 0 0 0) =? 2) &&
+      (l2_shift rb =? 0) && a64_gp_type_ok (l_allowed rb) 5 && (a64_imm_shift rb (mkA64Mem 5 1 6 2 0 0 0 0 0 0) =? 0)
+  | _, _ => false
+  end = true.
+Proof. exact a64_ldst_imm_offset_spec_applies. Qed.
+Print Assumptions C14_a64_ldst_imm_offset_spec_applies.
+
+(* a64 ldp / stp, for EVERY 32-bit offset: accepted exactly when off is a multiple of the access size inside the scaled simm7
+   range; the hypotheses hold for the row of ldp (X: scale 3, W: scale 2, write-back forms exist) *)
+Theorem C14_a64_ldp_offset_spec : forall r m,
+  a64_gp_type_ok (lp_allowed r) (p_rtype0 m) = true -> p_rtype0 m = p_rtype1 m ->
+  a64_check_gp_id (p_rid0 m) a64c_zr = true -> a64_check_gp_id (p_rid1 m) a64c_zr = true ->
+  p_btype m = a64c_reg_type_gp64 -> p_bid m <= 31 -> p_itype m = 0 -> (p_mode m = 0 \/ lp_prepost r <> 0) ->
+  - 2 ^ 31 <= p_off m < 2 ^ 31 ->
+  let s := lp_shift r + a64_gp_x (lp_allowed r) (p_rtype0 m) in
+  0 <= s <= 5 ->
+  let fits := - 64 * 2 ^ s <= p_off m < 64 * 2 ^ s /\ (p_off m) mod 2 ^ s = 0 in
+  (fits -> a64_ldp_encode_row r m = MOk 4 0) /\ (~ fits -> a64_ldp_encode_row r m = MErr kInvalidDisplacement).
+Proof. exact a64_ldp_offset_spec. Qed.
+Print Assumptions C14_a64_ldp_offset_spec.
+
+Theorem C14_a64_ldp_offset_spec_applies :
+  match a64_ldp_row a64c_id_ldp with
+  | PRow r => a64_gp_type_ok (lp_allowed r) 6 && a64_gp_type_ok (lp_allowed r) 5 && negb (lp_prepost r =? 0) &&
+              (lp_shift r + a64_gp_x (lp_allowed r) 6 =? 3) && (lp_shift r + a64_gp_x (lp_allowed r) 5 =? 2)
+  | _ => false
+  end = true.
+Proof. exact a64_ldp_offset_spec_applies. Qed.
+Print Assumptions C14_a64_ldp_offset_spec_applies.
+
+(* the moffs decision (x86_should_use_movabs) of a 64-bit Assembler without a base address, for EVERY 64-bit address: the 8-byte
+   address form is chosen exactly when neither a sign-extended nor a zero-extended 32-bit displacement reaches the address *)
+Theorem C14_x86_use_movabs_spec : forall cur rs m,
+  m_addr m <> 2 ->
+  let addr := sext 64 (m_off m) in
+  x86_use_movabs true false cur rs m = true <-> (addr < - 2 ^ 31 \/ 2 ^ 32 <= addr).
+Proof. exact x86_use_movabs_spec. Qed.
+Print Assumptions C14_x86_use_movabs_spec.
+
+(* the EVEX compressed displacement (disp8*N) of the gather path, for EVERY 32-bit displacement and every scale 1..64: one byte
+   exactly when the displacement is a multiple of the scale inside [-128*N, 127*N] *)
+Theorem C14_cdisp8_ok_iff : forall rel cd, 0 <= cd <= 6 -> - 2 ^ 31 <= rel < 2 ^ 31 ->
+  cdisp8_ok rel cd = true <-> (-128 * 2 ^ cd <= rel <= 127 * 2 ^ cd /\ rel mod 2 ^ cd = 0).
+Proof. exact cdisp8_ok_iff. Qed.
+Print Assumptions C14_cdisp8_ok_iff.
